@@ -435,10 +435,15 @@ impl resolvo::DependencyProvider for &DependencyProvider {
         unsafe { (self.get_candidates)(self.data, name.into(), NonNull::from(&mut candidates)) };
 
         unsafe {
+            // Read the favored and locked solvables before the candidates vector is consumed:
+            // the pointers may well point at elements of that very vector, whose storage is
+            // released once it has been converted.
+            let favored = candidates.favored.as_ref().copied().map(Into::into);
+            let locked = candidates.locked.as_ref().copied().map(Into::into);
             Some(resolvo::Candidates {
                 candidates: candidates.candidates.into_iter().map(Into::into).collect(),
-                favored: candidates.favored.as_ref().copied().map(Into::into),
-                locked: candidates.locked.as_ref().copied().map(Into::into),
+                favored,
+                locked,
                 hint_dependencies_available: HintDependenciesAvailable::Some(
                     candidates
                         .hint_dependencies_available
